@@ -227,6 +227,8 @@ class Ctx:
 
   def require_actions(self, r: TLCResult, names: Iterable[str]):
     """Anti-vacuity: every listed action must have been taken at least once."""
+    if r.violated:
+      return        # TLC stopped at a counterexample (already recorded as a violation): coverage is partial
     missing = [n for n in names if r.coverage.get(n, 0) == 0]
     if missing:
       raise MachineryError(f'vacuous model run {r.module}/{r.cfg}: actions never taken: '
